@@ -163,6 +163,10 @@ impl BaseStream {
                                 .map_err(|err| err == mpsc::RecvTimeoutError::Timeout),
                             None => rx.try_recv().map_err(|err| err == mpsc::TryRecvError::Empty),
                         };
+                        #[cfg(feature = "verif-hooks")]
+                        if res.is_ok() {
+                            verif_ctx.point("wd.ping");
+                        }
                         match res {
                             // The reader saw the end of the stream and asked whether the deadline
                             // had passed: not yet. Keep watching, later reads will ask again.
